@@ -122,7 +122,7 @@ PLANS = {
  "C14": dict(level="proof", pred=by("_assign_comments", "CommentsTransformer", PP + "process_attribute_comment", PP + "process_composite_comment", PP + "_add_type_comment", PP + "process_dict", PP + "process_key_dict", PP + "_format", TR + "composite"),
              b=["b_comments"], canaries=["comment_attach", "comment_dup"],
              explanation="comments leave comments_dict by pop exactly when attached (at most one node); a node receives the pending comments up to its line; hoisting and printing move them unchanged and once; Lark's meta.line assumed"),
- "C15": dict(level="proof", pred=by("load_includes", "_get_include_filename", "mappyfile.parser.Parser.load", "mappyfile.parser.Parser.parse_file", "mappyfile.parser.Parser.parse", "mappyfile.utils.open", "mappyfile.utils.load", "mappyfile.utils.loads"),
+ "C15": dict(level="proof", pred=by("load_includes", "_get_include_filename", "mappyfile.parser.Parser.open_file", "mappyfile.parser.Parser.load", "mappyfile.parser.Parser.parse_file", "mappyfile.parser.Parser.parse", "mappyfile.utils.open", "mappyfile.utils.load", "mappyfile.utils.loads"),
              b=["b_includes", "b_include_filename"], canaries=["include_depth", "include_root"],
              explanation="include scan and in-place splice proved against a ghost file system (depth limit 5, root-relative resolution, IOError for a missing file); file-name extraction (str.split on a symbolic string is out of reach) and the end-to-end behaviour are bounded"),
  "C17": dict(level="proof", pred=by("mappyfile.ordereddict."), b=["b_odict"], canaries=["pop_no_fold", "shallow_deepcopy"],
@@ -131,7 +131,7 @@ PLANS = {
              explanation="update / find / findall / findkey proved on fixed small shapes with symbolic keys and values (both overwrite modes, delete markers, None placeholders, appended items); findunique (set/sorted of symbolic values) is bounded only"),
  "C19": dict(level="other", pred=by(PP + "get_attribute_properties", TR + "plural", TR + "composite_type", "mappyfile.utils.create"), e=["c19_tables"], b=["b_vocabulary"], canaries=["singleton_plural"],
              explanation="finite and enumerated completely: table invariants over grammar x tokens.py x schemas, and every (type, keyword, value alternative, position, context) cell through the real API. Level other (not proof): three table obligations are refuted on the unchanged tree and are listed known findings (class.symbol / style.symbol stored under symbols, LABEL BACKGROUNDSHADOWSIZE default), so not every obligation is discharged"),
- "C20": dict(level="proof", pred=by("mappyfile.utils.", "mappyfile.cli.", "mappyfile.parser.Parser.load", "mappyfile.parser.Parser.parse_file"), b=["b_frontends"], canaries=["loader_flags", "exit_status"],
+ "C20": dict(level="proof", pred=by("mappyfile.utils.", "mappyfile.cli.", "mappyfile.parser.Parser.open_file", "mappyfile.parser.Parser.load", "mappyfile.parser.Parser.parse_file"), b=["b_frontends"], canaries=["loader_flags", "exit_status"],
              explanation="the three loaders are the same term transform[flags](parse[flags](source)); the three writers the same _pprint term written once (UTF-8 for save); CLI format/schema are term-equal to the API calls; validate's exit status = min(problems, 255) by loop contracts with ghost counters"),
 }
 
